@@ -84,11 +84,12 @@ theorem pathC_queryC (c : Char) (h : isPathC c = true) : isQueryC c = true := by
 /-! ### the shape `scheme://authority` the parser recognises -/
 
 /-- a scheme `urlsplit` accepts (ASCII letter first, then letters, digits, `+ - .`) and an authority without
-`/ ? #`, without brackets, made of URL characters -/
+`/ ? #`, made of URL characters, that passes the parser's bracket rules (`netlocOk`) -/
 structure OriginOk (sch auth : Text) : Prop where
   first : startsAlpha sch = true
   schemeChars : sch.all isSchemeChar = true
-  authChars : ∀ c ∈ auth, isUrlC c = true ∧ notNetlocDelim c = true ∧ c ≠ '[' ∧ c ≠ ']'
+  authChars : ∀ c ∈ auth, isUrlC c = true ∧ notNetlocDelim c = true
+  brackets : netlocOk auth = true
 
 /-- a path text: empty or starting with `/`, and obeying the grammar `( pchar | "/" | pct-encoded )*` -/
 structure BodyOk (body : Text) : Prop where
@@ -185,18 +186,10 @@ theorem urlsplit_assembled (sch auth body : Text) (q f : Option Text)
         | none => exact .inl (by simp [optPre])
     · subst e
       exact .inr ⟨'/', r ++ optPre '?' q ++ optPre '#' f, by simp, by decide⟩
-  have hn := takeWhile_stop notNetlocDelim auth _ (fun c hc => (ho.authChars c hc).2.1) hrest
+  have hn := takeWhile_stop notNetlocDelim auth _ (fun c hc => (ho.authChars c hc).2) hrest
   simp only [splitNetloc, hn.1, hn.2]
   -- 3. brackets
-  have hb1 : auth.contains '[' = false := by
-    cases hc : auth.contains '[' with
-    | false => rfl
-    | true => exact absurd rfl (ho.authChars '[' (by simpa using hc)).2.2.1
-  have hb2 : auth.contains ']' = false := by
-    cases hc : auth.contains ']' with
-    | false => rfl
-    | true => exact absurd rfl (ho.authChars ']' (by simpa using hc)).2.2.2
-  simp only [hb1, hb2, Bool.false_and, Bool.or_self, Bool.false_eq_true, if_false]
+  simp only [ho.brackets, Bool.not_true, Bool.false_eq_true, if_false]
   -- 4. fragment, 5. query
   have hnohash : '#' ∉ body ++ optPre '?' q := by
     intro m
